@@ -9,14 +9,13 @@ CONSTANTS
   r3 = r3
   NoTarget = NoTarget
   Cmds <- MCCmds
-  Group <- MCGroupS
+  Group <- MCGroup
   Reqs = {r1, r2}
-  Kinds = {"plain", "forever", "upgrade"}
-  MaxProbes = 1
-  AllowBad = FALSE
+  Kinds = {"plain"}
+  MaxProbes = 2
+  AllowBad = TRUE
   SignalAfterNotify = TRUE
   Exempt = TRUE
-SYMMETRY Sym2
 INVARIANTS
   TypeOK
   D_C01_a
@@ -28,3 +27,4 @@ INVARIANTS
   D_C17_c
   D_C09
 CHECK_DEADLOCK TRUE
+SYMMETRY Sym2
